@@ -96,10 +96,6 @@ func (s *Solver) declare() {
 	for ; s.declVars < len(s.ctx.vars); s.declVars++ {
 		v := s.ctx.vars[s.declVars]
 		s.send(fmt.Sprintf("(declare-const %s %s)", smtName(v.str), v.sort))
-		if v.sort == SStr {
-			// strings live in [0,1)
-			s.send(fmt.Sprintf("(assert (and (<= 0.0 %s) (< %s 1.0)))", smtName(v.str), smtName(v.str)))
-		}
 	}
 	for ; s.declUFs < len(s.ctx.ufList); s.declUFs++ {
 		d := s.ctx.ufList[s.declUFs]
